@@ -291,7 +291,7 @@ func algebraScenario(shard, nshards int, full bool) explore.Scenario {
 					if def && a == b {
 						fail(fmt.Sprintf("invert does not negate a defined result: %s on %v: %v / %v", termString(t), m, a, b))
 						return
-				}
+					}
 					if !def && (a || b) {
 						fail(fmt.Sprintf("undefined comparison matched: %s on %v", termString(t), m))
 						return
@@ -638,10 +638,11 @@ func build(tier string) []explore.Scenario {
 
 func main() {
 	explore.Main(explore.Config{
-		Property:  "C14",
-		Technique: "small-scope exhaustive enumeration of selector terms/queries x label maps at four evaluation sites against an independent evaluator and algebraic laws + exhaustive histories of label changes with filtered lists and watches replayed at exact quiescence on the controlled scheduler",
-		Rule:      "algebra: every term (and a covering set of term pairs) x 100 label maps x 4 sites; views: every history up to the length x 9 selectors x watches started at two positions; non-trivial = distinct queries / histories",
-		Assume:    []string{"values alphabet of 9 hostile strings, two keys", "views run the deterministic default schedule; interleavings of filtered watches are covered by C02's ring exploration"},
-		Extra:     map[string]any{"explanation": "states = distinct queries / histories; transitions = (query, label map, site) evaluations and scheduler steps of the history runs"},
+		Property:     "C14",
+		RequireShims: true,
+		Technique:    "small-scope exhaustive enumeration of selector terms/queries x label maps at four evaluation sites against an independent evaluator and algebraic laws + exhaustive histories of label changes with filtered lists and watches replayed at exact quiescence on the controlled scheduler",
+		Rule:         "algebra: every term (and a covering set of term pairs) x 100 label maps x 4 sites; views: every history up to the length x 9 selectors x watches started at two positions; non-trivial = distinct queries / histories",
+		Assume:       []string{"values alphabet of 9 hostile strings, two keys", "views run the deterministic default schedule; interleavings of filtered watches are covered by C02's ring exploration"},
+		Extra:        map[string]any{"explanation": "states = distinct queries / histories; transitions = (query, label map, site) evaluations and scheduler steps of the history runs"},
 	}, build)
 }
